@@ -337,7 +337,9 @@ func judge(c *core.Ctx, fc *fileCtx, cut int, mode string, alarmed bool, scope s
 			v.Site = entry[f.Decoder]
 		}
 		v.Class = cs.Class
-		cs.PrefixB64 = base64.StdEncoding.EncodeToString(f.Data[:cut])
+		if !f.Medium { // medium files replay from the compact case (file id + cut + reader behaviour)
+			cs.PrefixB64 = base64.StdEncoding.EncodeToString(f.Data[:cut])
+		}
 		cs.Tail = printable(f.Data[:cut])
 		v.Case = cs
 		c.Violate(*v)
@@ -351,7 +353,7 @@ func run(c *core.Ctx) {
 		c.HarnessError("file family: %s", e)
 	}
 	idx := 0
-	totalCuts, totalBytes := 0, 0
+	totalCuts, totalBytes, mediumCuts := 0, 0, 0
 	var names []string
 files:
 	for i := range files {
@@ -360,6 +362,9 @@ files:
 		cuts, mid := f.cuts()
 		totalCuts += len(cuts)
 		totalBytes += len(f.Data)
+		if f.Medium {
+			mediumCuts += len(cuts)
+		}
 		var fc fileCtx
 		prepared, ok := false, false
 		get := func() bool {
@@ -381,13 +386,13 @@ files:
 				if !get() {
 					continue
 				}
-				if !has(fc.modes, m) {
+				if !has(fc.modes, m) || !f.useMode(cut, m) {
 					continue
 				}
 				judge(c, &fc, cut, m, true, f.Family)
 			}
 		}
-		if c.Thorough() {
+		if c.Thorough() || f.Medium {
 			// inside a number: the prefix is itself a well-formed shorter token, outside the quantifier
 			sc := "ascii-mid-token"
 			c.ReportedOnly(sc, "cuts inside a token of a text body: indistinguishable from a shorter number, outside the property's quantifier; run and counted, never alarmed")
@@ -404,6 +409,8 @@ files:
 	c.Bound("file_count", len(files))
 	c.Bound("cut_positions", totalCuts)
 	c.Bound("total_file_bytes", totalBytes)
+	c.Bound("medium_file_cut_positions", mediumCuts)
+	c.Bound("medium_file_cut_rule", "within 3 bytes of every multiple of 4096 (incl. 65536) | every element/record/line/section boundary +-1 | last 64 bytes | stride 97")
 	c.Bound("reader_behaviours", modes)
 	c.Bound("complete_decode_ticks_of_budget", fullTicks)
 	c.Bound("tick_budget", "64*(len(file)+64) loop iterations per decode")
